@@ -1050,9 +1050,10 @@ theorem read_cut (r : Rd) (s : Src) (cx : Ctx) (cb : Option Callback) (k : Nat) 
       have hne : (adv r got.length).rawN ≠ 0 := by simp [adv]; omega
       cases hm : r.masked <;> simp [hm, adv, h.noU] <;> omega
     | some f =>
+      have hnz : ¬ (r.rawN - got.length = 0) := by omega
       cases f with
-      | eof => cases hm : r.masked <;> simp [hm, adv, hleft, h.noU]
-      | fail => cases hm : r.masked <;> simp [hm, adv, h.noU]
+      | eof => cases hm : r.masked <;> simp [hm, adv, hleft, h.noU, hnz]
+      | fail => cases hm : r.masked <;> simp [hm, adv, h.noU, hnz]
   · cases e with
     | none =>
       left
